@@ -191,7 +191,7 @@ func TestC08(t *testing.T) {
 		t.Skip("needs the race build")
 	}
 	st := statsFor("C08")
-	st.Rule = "a sequential prefix builds state; then either the handle is kept warm or it is closed and re-opened so that the workers' calls are the FIRST access after Open; then 2-4 goroutines x 1-4 calls run concurrently, each program several times under GOMAXPROCS 2/4/16, in sync, cached and async configurations (flusher running on a 50x scaled clock), with synchronisation-free random yields before every file-system call of the package. The binary is built with -race from a copy in which only time.Sleep is redirected; workers share nothing with each other in the harness (own event buffers, monotonic clock). Two program classes: 'lin' - calls whose inputs/outputs are fully observable atomic pieces (Get, GetByUUID, Exist, Count, All, AssignAll, AssignIndex, Search+Len, InsertOrUpdate, update, Delete, InsertOrUpdateMany, Schema, Control): the recorded call/return history, closed by a sequential sweep (Count, All, Get of every uuid), must be accepted by porcupine against the reference model; 'race' - ALL public entry points incl. And/Or chains, Collect, One, Search.Delete, DeleteAll, Bulk, Flush*, Commit, Create, Repair: no race report, no crash. Oracle: (1) the race detector (GORACE halt_on_error: the process stops at the first report, the journaled case is the replay), (2) porcupine (Unknown = inconclusive). Non-trivial: >= 2 workers with >= 1 writer whose call overlaps another call in real time. Distinct by program hash."
+	st.Rule = "a sequential prefix builds state; then either the handle is kept warm or it is closed and re-opened so that the workers' calls are the FIRST access after Open; then 2-4 goroutines x 1-4 calls run concurrently, each program several times under GOMAXPROCS 2/4/16, in sync, cached and async configurations (flusher running on a 50x scaled clock), with synchronisation-free random yields before every file-system call of the package. The binary is built with -race from a copy in which only time.Sleep is redirected; workers share nothing with each other in the harness (own event buffers, monotonic clock). Two program classes: 'lin' - calls whose inputs/outputs are fully observable atomic pieces (Get, GetByUUID, Exist, Count, All, AssignAll, AssignIndex, Search+Len, InsertOrUpdate, update, Delete, InsertOrUpdateMany, Schema, Control): the recorded call/return history, closed by a sequential sweep (Count, All, Get of every uuid), must be accepted by porcupine against the reference model; additional generated program classes: 'contention' (writers race for the same unique values with the conflicting member not first in their batches), 'readers' (read-only workers, different patterns on the same indexed fields), 'flushers' (concurrent Flush/FlushAll/FlushAllAndCommit/Commit of the same pending objects: every call must succeed); a second collection on the handle and settings switches (Create) are worker ops as well; after every execution a final-consistency invariant holds: everything flushed => Control nil, Count == All == object files, every file decodes to what the handle reads. 'race' - ALL public entry points incl. And/Or chains, Collect, One, Search.Delete, DeleteAll, Bulk, Flush*, Commit, Create, Repair: no race report, no crash. Oracle: (1) the race detector (GORACE halt_on_error: the process stops at the first report, the journaled case is the replay), (2) porcupine (Unknown = inconclusive). Non-trivial: >= 2 workers with >= 1 writer whose call overlaps another call in real time. Distinct by program hash."
 	st.Assumptions = append(baseAssumptions(), "schedules are sampled, not enumerated; the race detector is happens-before based, so a missing lock is reported whenever both accesses occur in one run, whatever the interleaving")
 	prof := c08Profile()
 	rapid.Check(t, func(rt *rapid.T) {
